@@ -12,7 +12,7 @@ pub fn def() -> PropDef {
         run,
         shrink: Shrink::Bytes,
         render: render_bytes,
-        rule: "every header the real parser accepts in the v1 slot / byte / length / UTF-8 universes (bytes and text entry points, borrowed and owned): protocol() must be the second field of the input line and match the address kind; addresses_str() must be the text between keyword and CRLF minus one leading space; `PROXY ` + protocol + between + CRLF must equal the header text and to_string(); non-trivial = accepted; distinct = hash of the input",
+        rule: "every header the real parser accepts in the v1 slot / byte / length / UTF-8 universes (bytes, text and str::parse entry points, borrowed and owned): protocol() must be the second field of the input line and match the address kind; addresses_str() must be the text between keyword and CRLF minus one leading space; `PROXY ` + protocol + between + CRLF must equal the header text and to_string(); non-trivial = accepted; distinct = hash of the input",
         assumptions: &["`between` is computed by the harness from the input bytes, not from the views under test"],
     }
 }
@@ -95,6 +95,13 @@ pub fn judge(input: &[u8], acc: &mut Acc) {
         acc.eval(1);
         if let Ok(Ok(h)) = &r {
             if let Err(p) = guard(|| check(acc, "try_from(&str) -> views", input, h)) {
+                acc.violation("view-panicked", "protocol()/addresses_str()/to_string()", "normal return".into(), p);
+            }
+        }
+        // the owned header that `str::parse` returns is a header like any other: its views are those of the input line
+        if let Ok(Ok(h)) = guard(|| s.parse::<v1::Header<'static>>()) {
+            acc.eval(1);
+            if let Err(p) = guard(|| check(acc, "str::parse::<Header>() -> views", input, &h)) {
                 acc.violation("view-panicked", "protocol()/addresses_str()/to_string()", "normal return".into(), p);
             }
         }
